@@ -283,6 +283,74 @@ def c12_composer(ctx):
                      label="composer: input digests before/after, " + label, timeout=3000)
 
 
+# ---------------------------------------------------------------------------------------------
+# Decision tables: C13 (PatchRules), C11 (JsonPatchGuard)
+
+def flip_valid(rec):
+    rec["valid"] = not rec["valid"]
+
+
+def corrupt_rule(ev):
+    ev = json.loads(json.dumps(ev))
+    ev["valid"] = not ev["valid"]
+    return ev
+
+
+def c13(ctx):
+    ctx.rule = ("PatchRules.tla transcribes the documented constraints as Valid(feature record). TLC starts from valid "
+                "bases (key / service in add- and replace-patches, remove lists, also-known-as lists, replace "
+                "documents, ietf-json-patch envelopes, original documents) and sets every field, one at a time (pairs "
+                "at the thorough tier), to each of its other values: id lengths 0/1/50/51 and character classes, "
+                "type lengths 0/1/30/31, every JWK defect, material none/both, every forbidden extra member, every "
+                "endpoint shape incl. a bad URI at list position 0/1/last, plus the full key type x purpose-subset "
+                "matrix (7 x 32). The harness builds the real patch per record and compares "
+                "patchvalidator.Validate / IsValidOriginalDocument with Valid. Then random records from the full "
+                "product of feature values are validated by TLC (PatchRulesTrace).")
+    ctx.assumptions = ["URI strings are limited to ones url.Parse and url.ParseRequestURI agree on",
+                       "(purposes absent, unknown key type) is not in the catalogue: the statement is silent there",
+                       "TLC checks on the table itself: bases valid, each violated constraint alone invalidates "
+                       "(BadIdAlone, BadEndpointAlone, ExtraKeyMember), further service members stay allowed"]
+    mm = 1 if ctx.tier == "quick" else 2
+    _, summ = ctx.tlc_pipe("MC_PatchRules.tla", "MC_PatchRules.cfg", ["rules-replay"], overrides={"MaxMut": mm},
+                           workers=4, label="bases, %d-field mutations and the type x purpose matrix" % mm)
+    ctx.negctl_replay(["rules-replay"], summ["_first_edge"], flip_valid)
+    n = 20000 if ctx.tier == "quick" else 400000
+    validate_trace(ctx, "rules", ["-n", str(n)], "PatchRulesTrace.tla", "PatchRulesTrace.cfg", "rules_trace.ndjson",
+                   histories=n, key_of=lambda ev: json.dumps(ev.get("c"), sort_keys=True)[:150], corrupt=corrupt_rule)
+    ctx.exhaustive = True
+
+
+def flip_validated(rec):
+    # claim that nothing of a list that writes to publicKey may alter it: the binding must object
+    rec["ops"] = [{"kind": "remove", "path": "/publicKey/0", "from": "/publicKey/0"}]
+    rec["mayAlterPK"] = False
+    rec["mayAlterSvc"] = False
+
+
+def c11(ctx):
+    ctx.rule = ("TLC enumerates RFC 6902 lists: 6 operation kinds x 16 path pointers x 16 from pointers (members "
+                "publicKey / service, their elements and sub-members, the append pointer, sibling names sharing a "
+                "prefix, escaped tokens ~0 ~1, the empty member name and the root), single operations and lists of "
+                "two, and shows on the model that a validator inspecting path and from lets nothing through that "
+                "alters the protected members (GuardSuffices), while the negative configuration CheckFrom = FALSE "
+                "violates it. Each list is handed to the real patchvalidator.Validate; if it passes, to the real "
+                "ApplyPatches on two documents (with and without the sibling members); the publicKey and service "
+                "members before and after must be identical. The model's may-alter classification is cross-checked "
+                "against the real effect of every list applied without validation.")
+    ctx.assumptions = ["the real validator may be stricter than the intended one (it refuses sibling names sharing "
+                       "a prefix); it may not be laxer in effect", "an apply error or a contained panic leaves the "
+                       "document unchanged and is not a violation of this property"]
+    pairing = q("benign") if ctx.tier == "quick" else q("all")
+    _, summ = ctx.tlc_pipe("MC_JsonPatchGuard.tla", "MC_JsonPatchGuard.cfg", ["guard-replay"],
+                           overrides={"Pairing": pairing}, label="RFC 6902 lists, pairing " + pairing, timeout=3000)
+    if summ["extra"]["accepted_by_validator"] == 0 or summ["extra"]["altering_lists_stopped_by_validation"] == 0:
+        raise Infra("vacuous: no list accepted / no altering list stopped")
+    ctx.tlc_check("MC_JsonPatchGuard.tla", "MC_JsonPatchGuard_neg.cfg", expect_violation=True,
+                  label="negative configuration: validator without the from conjunct")
+    ctx.negctl_replay(["guard-replay"], summ["_first_edge"], flip_validated)
+    ctx.exhaustive = True
+
+
 def replay(path):
     """re-execute exactly the case of a replay file against the current tree"""
     m = json.load(open(path))
@@ -347,5 +415,7 @@ CHECKS = {
     "C02": c02,
     "C09": c09,
     "C10": c10,
+    "C11": c11,
+    "C13": c13,
     "C12": c12,
 }
